@@ -408,6 +408,106 @@ import os, tempfile, shutil, subprocess, sys, json, types
 
 
 # ----------------------------------------------------------------------------
+# collections gathered through sets are returned in a defined order (hash-seed independence)
+# ----------------------------------------------------------------------------
+VRP = 'moPepGen/seqvar/VariantRecordPool.py'
+
+
+class _RecSet:
+    """a set built by the function: only added to / updated, iterated in an order the hash seed decides, or turned into a list"""
+    def __init__(self, owner, base=None):
+        self.owner, self.base, self.adds = owner, base, []
+
+    def sym_method(self, I, name, a, k):
+        if name == 'add':
+            self.adds.append(a[0])
+            return None
+        if name == 'update':
+            self.adds.append(('update', a[0]))
+            return None
+        raise Unsupported(f'set.{name}')
+
+    def sym_view(self, I):
+        n = I.e.int('n_set_items')
+        I.e.assume(n >= 0)
+        return FnView(n, lambda i: SymObj('TxId06f', i=i if is_z3(i) else z3.IntVal(i)), tag='set iteration')
+
+
+class _RecList:
+    def __init__(self, owner):
+        self.owner, self.sorted = owner, False
+
+    def sym_method(self, I, name, a, k):
+        if name == 'sort':
+            self.sorted = not (a or k)
+            return None
+        self.sorted = False
+        if name in ('append', 'extend', 'reverse'):
+            return None
+        raise Unsupported(f'records.{name}')
+
+
+@register
+class FilterVariantsOrder(Contract):
+    """filter_variants gathers the records of several transcripts through sets (whose iteration order depends on the hash seed) and must hand
+    them on sorted by their own order: the list it returns is sorted after its last modification, so downstream code that assumes sorted
+    input (merging adjacent variants, graph construction) sees the same sequence in every process"""
+    path, qualname, props = VRP, 'VariantRecordPool.filter_variants', ('C06',)
+    declared_raises = ['ValueError']
+    assumptions = ('havoc: which records pass the position filter; list.sort() orders records by location (VariantRecord ordering)',)
+
+    def setup(self, I):
+        e = I.e
+        st = types.SimpleNamespace(adds=[], lists=[])
+        zz = lambda i: i if is_z3(i) else z3.IntVal(i)
+        ntx = e.int('n_tx')
+        e.assume(ntx >= 0)
+        rec = lambda kind: (lambda i: SymObj('VariantRecord', type=SymObj('RecType'), location=SymObj('Loc06', start=e.int('rec_start'), end=e.int('rec_end')), _kind=kind))
+        series = SymObj('Series06f', transcriptional=FnView(e.int('n_transcriptional'), rec('tx'), tag='transcriptional'), intronic=FnView(e.int('n_intronic'), rec('intron'), tag='intronic'))
+        anno = SymObj('Anno06f', genes=types.SimpleNamespace(sym_getitem=lambda I2, key: SymObj('Gene06f', transcripts=FnView(ntx, lambda i: SymObj('TxId06f', i=zz(i)), tag='gene transcripts'))),
+                      transcripts=types.SimpleNamespace(sym_getitem=lambda I2, key: SymObj('TxModel06f', transcript=SymObj('Tx06f', gene_id=SymObj('GeneId06f')))))
+        st.pool = SymObj('VariantRecordPool', anno=anno, _series=series)
+        st.args = [st.pool]
+        st.kwargs = dict(gene_id=SymObj('GeneId06f') if e.branch(e.bool('gene_given'), 'gene') else None,
+                         tx_ids=FnView(e.int('n_given_tx'), lambda i: SymObj('TxId06f', i=zz(i)), tag='tx_ids') if e.branch(e.bool('tx_ids_given'), 'tx ids') else None,
+                         exclude_type=types.SimpleNamespace(sym_contains=lambda I2, item: I2.e.bool('type_excluded')),
+                         start=e.int('start') if e.branch(e.bool('start_given'), 'start') else None, end=e.int('end') if e.branch(e.bool('end_given'), 'end') else None,
+                         intron=e.bool('intron'), segments=None, return_coord='gene' if e.branch(e.bool('gene_coordinates'), 'coord') else 'transcript')
+        self._cur = st
+        return st
+
+    @property
+    def models(self):
+        c = self
+
+        def inst(reg):
+            reg.set_hooks.append(lambda v: (lambda I, v: _RecSet(c, v)) if isinstance(v, FnView) and v.tag == 'tx_ids' else None)
+            reg.empty_set_hook = lambda I: _RecSet(c)
+            reg.protocol_('VariantRecordPool', '__contains__', lambda I, o, key: I.e.bool('transcript_has_variants'))
+            reg.protocol_('VariantRecordPool', '__getitem__', lambda I, o, key: o.fields['_series'])
+            reg.method_('Anno06f', 'variant_coordinates_to_gene', lambda I, o, a, k: SymObj('VariantRecord', type=a[0].fields['type'], location=SymObj('Loc06', start=I.e.int('g_start'), end=I.e.int('g_end')), _gene_of=a[0]))
+            reg.method_('VariantRecord', 'is_merged_mnv', lambda I, o, a, k: I.e.bool('merged_mnv'))
+
+            def list_hook(I, a, k):
+                if a and isinstance(a[0], _RecSet):
+                    l = _RecList(c)
+                    c._cur.lists.append(l)
+                    return l
+                return None
+            reg.list_hook = list_hook
+        return (inst,)
+
+    @property
+    def loops(self):
+        T = lambda I, env, k: []
+        U = dict(target_after='unknown')
+        return {0: LoopSpec(inv=T, havoc=lambda I, env, k: None, **U), 1: LoopSpec(inv=T, havoc=lambda I, env, k: None, **U), 2: LoopSpec(inv=T, havoc=lambda I, env, k: None, **U)}
+
+    def post_return(self, I, st, ret):
+        I.e.prove('C06/filter_variants/returned-list-sorted-after-its-last-modification', isinstance(ret, _RecList) and ret.sorted)
+
+
+# ----------------------------------------------------------------------------
 # the worker: caller_reducer (retry with reduced complexity on a timeout)
 # ----------------------------------------------------------------------------
 @register
